@@ -90,20 +90,28 @@ class C10(Prop):
         "gev_gumbel_branch_distance", "bisection_inverses_generated", "bisection_inverses_bracket", "bisection_inverses_accuracy",
         "bisection_inverses_terminate", "bisection_inverses_real_reading_hangs_above_sup", "bisection_bracket_returns_at_infinity", "mixture_log_versions_partial", "incomplete_gamma_structure", "generic_api_forwards", "lognormal_laws", "gam_sxp_closed_forms",
         "gam_sxp_textbook_laws", "gam_sxp_code_vs_textbook", "gam_sxp_code_close", "mixture_full_laws",
-        "mixture_sample_is_component_inverse", "transformed_samples")]
+        "mixture_sample_is_component_inverse", "transformed_samples", "sampler_primitive_arguments",
+        "gam_sxp_inverse_laws", "mixgev_log_versions")]
     claimed = True
     technique = ("Lean 4 proof about the C functions translated from the working tree on every run (clang-14 AST -> Lean, polymorphic "
                  "over a numeric class): real-analysis theorems at the R instance, the same definitions executed at Float bit-for-bit "
                  "against the ASan/UBSan-built C functions; 50-digit mpmath property monitors (L0 support, not a theorem)")
-    level_text = ("L2 theorems: the textbook closed forms satisfy the laws (monotone 0->1, cdf+surv=1, inverses, HasDerivAt cdf pdf). "
+    level_text = ("L2 theorems: the textbook closed forms satisfy the laws (monotone 0->1, cdf+surv=1, inverses, HasDerivAt cdf pdf, integral of the pdf) - "
+                  "for gamma / stretched exponential relative to the incomplete gamma function defined as an integral over Mathlib's Gamma kernel, for the "
+                  "normal family relative to erfc built on the Gaussian integral, for both mixtures with any number of components. "
                   "L1 theorems: each translated esl_<dist>_* function, as a real function with its eslSMALLX1 branch switches, equals the "
-                  "textbook form within an explicit epsilon; out-of-support values exactly for every carrier; Sample = inverse cdf of the deviate. "
+                  "textbook form within an explicit epsilon (gamma / stretched exponential: exactly up to the two special-function discrepancies, which appear as "
+                  "explicit terms); out-of-support values exactly for every carrier; every sampler = the stated transformation of the primitive variate it draws; "
+                  "the bracketing+bisection inverses: bracket invariant, accuracy, termination (the repaired right bracket returns on every carrier that reaches +inf). "
                   "The translation is redone from the current source each run, so a changed function is re-proved or the obligation fails.")
     level_note = ("Trusted: Lean kernel + propext/Classical.choice/Quot.sound; clang-14's AST and the translator's operator/libm mapping "
                   "(checked, not proved, by the bit-exact Float run); L0 (binary64 rounding of the real-valued code) is supported only by the "
-                  "bit-exact run plus 50-digit monitors with condition-number-scaled tolerances; LogGamma/IncompleteGamma are the hand model of "
-                  "the C algorithm read over R (what they approximate is not proved); erfc over R is the mathematical erfc (Gaussian integral), "
-                  "that esl_stats_erfc agrees with it is L0; the loops of the four bisection inverses carry a fuel argument (none = still running).")
+                  "bit-exact run plus 50-digit monitors with condition-number-scaled tolerances, accounted per branch of the translated code; "
+                  "LogGamma/IncompleteGamma are the hand model of the C algorithm read over R: how far they are from log Gamma and from the "
+                  "integrals P, Q is NOT proved (it enters gam_sxp_code_close as explicit epsilon, delta; monitored ~1e-9 / ~1e-7); erfc over R is the "
+                  "mathematical erfc (Gaussian integral), that esl_stats_erfc agrees with it is L0; the loops of the four bisection inverses carry a fuel "
+                  "argument (none = still running); esl_rnd_Gamma / esl_rnd_Gaussian / esl_rnd_DChoose are not modelled here: the samplers are functions of "
+                  "the variate (and component) they yield.")
     trusted_base = ["translate/c2lean.py: clang-14 JSON AST -> Lean (operators, libm names, literals from source text); tied by running every "
                     "translated function at Float against the C function bit-for-bit (harness/h_dist.c, ASan+UBSan build of the working tree)",
                     "Lean compiler/runtime and the system libm for the executable driver; gcc -O1 -ffp-contract=off",
@@ -111,6 +119,12 @@ class C10(Prop):
     assumptions = ["struct parameters (ESL_HYPEREXP, ESL_MIXGEV) are Lean structures with the members the translated functions use; arrays are "
                    "lists read with getD (default 0.0) and written with List.set: theorems carry K <= length where a store matters; the scratch "
                    "vector wrk is local to one call (its contents are not carried across calls)",
+                   "samplers: the one primitive draw (esl_rnd_UniformPositive / esl_rnd_Gamma / esl_rnd_Gaussian) becomes the parameter u, the arguments handed "
+                   "to it are translated too (<fn>_draw) and compared with the C call (ld --wrap interception); esl_rnd_DChoose's result becomes the parameter k; "
+                   "esl_gam_Sample's redraw loop is a hand model over the stream of variates",
+                   "binary64 reaches +inf in the tripling bracket only for |mu| < 2^53 (beyond, mu + 1. == mu and the C loop itself never ends); the property's "
+                   "location range is +-10^3",
+                   "no denormal arguments are generated (e.g. esl_lognormal_pdf(5e-324, mu, 0.5) is 0/0 = NaN because x*sigma underflows - outside any documented range)",
                    "bisection termination over R needs cdf < p on [mu, mu+delta] (p not attained at the support edge): otherwise the real loop "
                    "never stops (proved) and the C code relies on its binary64 no-progress break; fuel 5000 per loop in the driver",
                    "L0: IEEE-754 evaluation of the translated real function is close to its real value - not proved; monitored",
@@ -622,6 +636,8 @@ class C10(Prop):
                     if xv != mu_:
                         want = xv
                         break
+                if len(res) != 2 or res[1] != a[2]:
+                    return Failure("monitor", "esl_gam_Sample(mu, lambda, tau = %r) drew its variate with esl_rnd_Gamma(r, %r): the shape must be tau; %s" % (a[2], res[1:], op))
                 if want is None or res[0] != want or res[0] == mu_:
                     return Failure("monitor", "esl_gam_Sample on the Gamma variates %r returned %r; the first mu + t/lambda != mu is %r; %s" % (
                         [unhex(v) for v in kv["t"].split(",")], res[0], want, op))
@@ -636,10 +652,14 @@ class C10(Prop):
                     if why:
                         return Failure("monitor", "%s with deviate %r returned %r, %s of the deviate is %s: %s" % (kv["fn"], u, sx, which, R.mpmath.nstr(band[0], 17), why))
                 elif fam == "sxp":
+                    if len(res) != 2 or res[1] != 1.0 / a[2]:
+                        return Failure("monitor", "esl_sxp_Sample(mu, lambda, tau = %r) drew its variate with esl_rnd_Gamma(r, %r): the shape must be 1/tau; %s" % (a[2], res[1:], op))
                     ref = R.mpmath.mpf(a[0]) + R.mpmath.mpf(u) ** (1 / R.mpmath.mpf(a[2])) / R.mpmath.mpf(a[1])
                     if not (abs(sx - ref) <= 1e-12 * abs(ref - a[0]) + 4 * 2.0 ** -52 * abs(a[0]) + 5e-324):
                         return Failure("monitor", "esl_sxp_Sample with Gamma variate %r returned %r, mu + t^(1/tau)/lambda = %s; %s" % (u, sx, R.mpmath.nstr(ref, 17), op))
                 elif fam == "lognormal":
+                    if res[1:] != [0.0, 1.0]:
+                        return Failure("monitor", "esl_lognormal_Sample drew its variate with esl_rnd_Gaussian(r, %r): must be the standard normal (0, 1); %s" % (res[1:], op))
                     arg = R.mpmath.mpf(a[0]) + R.mpmath.mpf(a[1]) * R.mpmath.mpf(u)
                     ref = R.mpmath.exp(arg)
                     if not ((sx == math.inf and arg > 709.7) or abs(sx - ref) <= 4e-16 * (2 + abs(float(arg))) * ref + 5e-324):
